@@ -110,7 +110,20 @@ package raftlog
 //@   ghost pw int = -1
 //@   call .WriteSlice
 //@     set pw = (ret0 == nil ? arg0 : -1)
+//@     set clr = clr || arg5
+//@     set clrFrom = (arg5 ? arg0 : clrFrom)
+//@     set clrTo = (arg5 ? arg1 : clrTo)
 //@     frame nothing
+// Appending at an index that already exists discards that entry and everything after it: when the conflict is in the
+// current file, every used slot from the conflicting one on (it included: its cached size and payload are stale too)
+// is cleared before the log is cut back to it.
+//@   ghost clr bool = false
+//@   ghost clrFrom int = 0
+//@   ghost clrTo int = 0
+//@   ghost trunc bool = false
+//@   store entryLog.nextEntryIdx
+//@     requires [conflict_discards_entry_and_everything_after] asked && !trunc && li >= 0 && fi == -1 && obj.nextEntryIdx > li ==> clr && clrFrom <= li && clrTo >= obj.nextEntryIdx
+//@     set trunc = true
 //@   call (*logFile).getEntry
 //@     frame nothing
 //@   call .WriteAt
@@ -118,6 +131,8 @@ package raftlog
 //@   ensures result == nil && asked && li >= 0 && fi != -1 ==> curDel && locked
 //@   loop 1
 //@     invariant locked && (curDel || (rangeindex < len(extra) - 1 && extra[len(extra)-1] == cur0))
+//@   loop 2
+//@     invariant trunc || li < 0 || !asked
 
 // writes the 32-byte slot buffer it is given and nothing else
 //@ func marshalEntry
@@ -166,3 +181,20 @@ package raftlog
 //@     set eq = (ret0 == raftIndex)
 //@   ensures [file_starting_at_index] eq ==> result1 == 0
 
+
+// Compaction of the log prefix: exactly the files BEFORE the one that holds the index are deleted, and the files from
+// that one on stay in the list, in order (deleting a kept file loses entries above the snapshot index for good).
+//@ func (*entryLog).deleteBefore
+//@   requires l != nil
+//@   ghost fi int = 0
+//@   ghost asked bool = false
+//@   call (*entryLog).slotGe
+//@     set fi = ret0
+//@     set asked = true
+//@     frame nothing
+//@   call .Name
+//@     frame nothing
+//@   call (*logFile).delete
+//@     requires [only_files_before_the_cut] asked && fi >= 0 ==> 0 <= rangeindex && rangeindex < fi && recv == old(l.files[rangeindex])
+//@     frame nothing
+//@   ensures [kept_files_stay_in_order] result == nil && asked && fi >= 0 ==> len(l.files) == old(len(l.files)) - fi && (forall k int :: 0 <= k && k < len(l.files) ==> l.files[k] == old(l.files[fi + k]))
